@@ -78,9 +78,12 @@ impl Tracer {
         }
         if ev["op"] == "div" {
             // tell the specification which operand is the primitive (a form name is only a label to it)
-            let (lk, _) = crate::forms::form_kinds(ev["form"].as_str().unwrap());
+            let (lk, rk) = crate::forms::form_kinds(ev["form"].as_str().unwrap());
             if !crate::forms::is_dec_kind(&lk) {
                 ev.as_object_mut().unwrap().insert("lhsprim".into(), Value::Bool(true));
+            }
+            if !crate::forms::is_dec_kind(&rk) {
+                ev.as_object_mut().unwrap().insert("rhsprim".into(), Value::Bool(true));
             }
         }
         let r = if ev["op"] == "reset" || ev["op"] == "note" {
